@@ -12,3 +12,11 @@ print("ok lines:", len(ok), "failed lines:", len(failed))
 print("baseline tests that FAILED:", bad)
 print("baseline tests not seen passing:", missing)
 print("compile errors:", len(re.findall(r"^error(\[E\d+\])?:", log, flags=re.M)) - log.count("error: 1 target failed") - log.count("error: test failed"))
+
+# robust summary (individual `test x ... ok` lines can be interleaved with the tests' own output):
+res = re.findall(r"test result: (ok|FAILED)\. (\d+) passed; (\d+) failed", log)
+tot_pass = sum(int(a) for _, a, _ in res); tot_fail = sum(int(b) for _, _, b in res)
+bad_bins = [(k, a, b) for k, a, b in res if k == "FAILED"]
+print("per-binary totals: passed", tot_pass, "failed", tot_fail, "| FAILED binaries:", bad_bins,
+      "| unchanged tree: passed 425 failed 332, one FAILED binary ('17', '332')")
+print("VERDICT:", "same as the unchanged tree" if tot_pass == 425 and tot_fail == 332 and len(bad_bins) == 1 and not bad else "DIFFERS")
